@@ -50,6 +50,12 @@ CONF = {
         "tiers": tiers(8, 6000, 16, 150000, t_fuzz=[{"target": "FuzzC07", "seconds": 180}]),
         "require_classes": ["mode:fill", "mode:decor", "mode:row", "zero-width-component", "wide-component", "wide-tip", "multi-tip", "row:decorators-exceed-width", "row:pty", "style:spinner"],
     },
+    "C09": {
+        "rule": "cases = (initial total over int64 classes, refresh mode none|manual|injected auto, with/without EWMA decorator, 0-40 operations drawn against the reference bar model so that mutators stop at the first terminal state: increments of all 6 flavours incl. negative and boundary amounts, SetCurrent/EwmaSetCurrent, SetTotal(+/-,complete), EnableTriggerComplete, SetRefill, Abort, getters, render cycles); non-trivial = >=3 mutators of >=2 kinds and the trigger flag was touched or the cap at total applied; distinct by FNV-64 of the case JSON",
+        "assumptions": GO_ASSUME + ["reference model written from the method documentation in bar.go and the property statement; int64 wrap-around is not generated (no promise documented)", "a call that has not returned after 20 s (normal: microseconds) is reported as a hang"],
+        "tiers": tiers(8, 12000, 16, 250000),
+        "require_classes": ["mode:none", "mode:manual", "mode:autoinj", "total<=0", "trigger-enabled-later", "completed", "aborted", "refill-read", "statistics-read"],
+    },
     "C05": {
         "rule": "cases = sequential scenarios (container config, 1-7 bar specs, program of add/incr/set/abort/priority/write/tick/cancel steps) drawn by rapid; non-trivial = >=3 frames and >=1 change of the displayed set between frames; distinct by FNV-64 of the scenario JSON",
         "assumptions": GO_ASSUME + SCHED_ASSUME + ["one output Write call = one frame (cwriter flushes its buffer with a single Write)", "exact frame model only for manual refresh, sequential client and queue length > number of bars; otherwise history invariants"],
